@@ -66,7 +66,7 @@ class C13(Campaign):
     def scenario(self, rnd, tier):
         k = gen.knobs(p_validator=0.1, listeners=(0, 1), rtc=[True, True, False], allow=[False, False, True],
                       async_modes=["none", "none", "none", "all", "mixed"], drivers=["sync"], p_unknown_event=0.08,
-                      p_ret=0.6, p_call_style=0.0)
+                      p_ret=0.6, p_call_style=0.0, p_from_any=0.25)
         sc = gen.gen_scenario(rnd, k, profile="C13")
         prog = sc["programs"][0]
         is_async = any(m.get("async") for m in prog["cbs"].values())
@@ -89,6 +89,8 @@ class C13(Campaign):
                           {"name": "probe_boom", "kind": "raising_property"},
                           {"name": "probe_method", "kind": "method"}]
         names += ["probe_prop", "probe_boom", "probe_method"] * 2
+        # ``event=`` names given to from_.any(): the declared event is the attribute's name alone
+        names += [a["alias"] for a in prog.get("any", []) if a.get("alias")] * 4
         out = [new]
         foreign = (not mixin) and rnd.random() < 0.3
         if foreign:
@@ -114,9 +116,10 @@ class C13(Campaign):
                     styles.append("mixin")
                 op["style"] = rnd.choice(styles)
             out.append(op)
-        if len(prog["events"]) >= 2 and rnd.random() < 0.3:
+        plain = [e for e in prog["events"] if not any(e in a["events"] for a in prog.get("any", []))]
+        if len(plain) >= 2 and rnd.random() < 0.3:
             # two different events with the same human-readable name (identity of an event is its id)
-            a, b = rnd.sample(prog["events"], 2)
+            a, b = rnd.sample(plain, 2)
             prog["event_names"] = {a: "Same label", b: "Same label"}
             for t in prog["trans"]:
                 if t.get("assign") in (a, b):
